@@ -179,6 +179,12 @@ def parseDirSnap (s : String) : Option (Option Dir) :=
         | _, _ => none
       | ["F", p] => (allSome ((p.splitOn "/").map hexDecode)).map (fun p => insertAt d p (.file []))
       | ["L", p] => (allSome ((p.splitOn "/").map hexDecode)).map (fun p => insertAt d p (.link .dangling))
+      -- a symlink with what it leads to (C02's snapshots): D = a directory, F = a file, x = nothing
+      | ["L", p, k] =>
+        match allSome ((p.splitOn "/").map hexDecode),
+            (if k = "D" then some LinkKind.toDir else if k = "F" then some LinkKind.toFile else if k = "x" then some LinkKind.dangling else none) with
+        | some p, some k => some (insertAt d p (.link k))
+        | _, _ => none
       | _ => none
   (lines.foldl step (some [])).map some
 
